@@ -10,8 +10,10 @@ from ..pyindex import dotted
 
 LEVEL = ("hash-seed clause: every place where the ORDER of a set-typed value is observed (Python for/comprehension/join/"
          "list()/next(iter())/pop(); Jinja for/join/list/first) is enumerated from the typed program (abstract interpreter "
-         "types for Python, template interpreter for Jinja); each is sorted, a proven singleton, feeds an order-insensitive "
-         "update, or is a frozen diagnostics-only case. Environment-dependent sources are enumerated. Permutation clause "
+         "types for Python, template interpreter for Jinja) in the whole package, the document model included; each is sorted, a "
+         "proven singleton, feeds an order-insensitive update, or does - followed through the functions it calls - nothing but keyed "
+         "idempotent updates, text for an error object, and yields (a generator that yields in set order is an unordered iterable "
+         "itself, judged at its consumers). Environment-dependent sources are enumerated. Permutation clause "
          "(narrow): aggregates are sorted, worklist rounds reset their errors and let any item of a round ask for the next one, suffix tests on reference paths are "
          "separator-anchored, re-registrations of shared classes are monotone, late-filled fields of copied "
          "classes are read by templates only on the rendered object itself, context-less imported templates keep no macro-written "
@@ -111,8 +113,13 @@ def _insensitive_body(body: list[ast.stmt]) -> bool:
 def run(rep: Report, ctx: Any) -> str:
     ix = ctx.py
     it, ji = ctx.flow
-    rep.rule("R12.1", "no observation of the order of a set reaches generated output: sorted / singleton / order-insensitive / "
-                      "diagnostics-only (frozen); no environment-dependent source is used")
+    rep.rule("R12.1", "no observation of the order of a set - anywhere in the package, the document model and its validators included - "
+                      "reaches generated output: it is sorted / a singleton / consumed order-blind, or everything that is done per element "
+                      "(followed into the called functions, recursion included) is a keyed idempotent update (set.add/update/discard, "
+                      "setdefault, pop with default, del / pop under an established membership), text stored into an error object, or a "
+                      "yield - and a generator that yields while it traverses a set is itself an unordered iterable whose every traversal "
+                      "is an instance of this rule; a value made from the order may end as text in an error object only; no "
+                      "environment-dependent source is used")
     rep.rule("R12.2", "aggregates are emitted through a sort; worklist rounds keep what they record for a re-queued item (its error, the re-queue "
                       "entry) from the last round only, and what decides about "
                       "another round is bound monotonically per item (one constant, or accumulated from itself) and can be moved by an item; "
@@ -1085,7 +1092,7 @@ def _only_into_diagnostics(f: Any, node: ast.AST, parent: dict[int, ast.AST], it
             if last in (ERROR_CLASSES | ERROR_ONLY_HELPERS):
                 return True
             text = isinstance(par.func, ast.Attribute) and par.func.attr in TEXT_METHODS and (ch is par.func or ch in par.args or
-                                                                                               any(k.value is ch for k in par.keywords))
+                                                                                               ch in par.keywords)
             if not (text or (last in ("str", "repr", "list", "tuple", "sorted") and ch in par.args)):
                 return False
         elif isinstance(par, ast.Attribute) and isinstance(parent.get(id(par)), ast.Call) and parent[id(par)].func is par and par.attr in TEXT_METHODS:
